@@ -558,8 +558,13 @@ func (f *feedListener) Accept() (net.Conn, error) {
 func (f *feedListener) Close() error   { f.once.Do(func() { close(f.closed) }); return nil }
 func (f *feedListener) Addr() net.Addr { return muxAddr{} }
 
+var muxStressAbort atomic.Bool
+
 func runMuxStress(c *engine.Ctx, round int, seed int64) {
 	r := c.R
+	if muxStressAbort.Load() {
+		return // an earlier round deadlocked: its goroutines are stuck, further rounds add nothing
+	}
 	rng := c.Rng(fmt.Sprintf("mux-stress-%d-%d", round, seed))
 	parent, cancel := context.WithCancel(context.Background())
 	defer cancel()
@@ -655,7 +660,8 @@ func runMuxStress(c *engine.Ctx, round int, seed int64) {
 	stressCase := map[string]any{"stress_round": round, "ingress": nIngress, "accept": nAccept, "close": nClose, "cancel": useCancel, "ingress_listener": useFeed}
 	select {
 	case <-allDone:
-	case <-time.After(60 * time.Second):
+	case <-time.After(20 * time.Second):
+		muxStressAbort.Store(true)
 		// logical witness: is everything waiting?
 		snap := snapshotAll()
 		allWaiting := true
@@ -825,7 +831,9 @@ func runMux(c *engine.Ctx) engine.Result {
 	r.Require("window:accept_received_then_cancelled_before_recheck", 3)
 	r.Require("window:ingress_passed_closed_check_then_close_ran", 3)
 	r.Require("window:close_blocked_on_write_lock_while_sender_holds_read_lock", 3)
-	r.Require("stress_rounds", int64(rounds*9/10))
+	if !muxStressAbort.Load() {
+		r.Require("stress_rounds", int64(rounds*9/10))
+	}
 	r.Require("accept_after_close_reports_closed", 20)
 	return res
 }
